@@ -134,72 +134,5 @@ func runC05(c *core.Ctx) {
 		checkTmpID(c)
 	})
 
-	c.Clause("C05.who", func() {
-		type acc struct{ fn, cache, table string }
-		sets := []acc{
-			{vfIdx + ".SetHighestBefore", hbCache, vfIdx + ".table.HighestBeforeSeq"},
-			{vfIdx + ".SetLowestAfter", laCache, vfIdx + ".table.LowestAfterSeq"},
-		}
-		gets := []acc{
-			{vfIdx + ".GetHighestBefore", hbCache, vfIdx + ".table.HighestBeforeSeq"},
-			{vfIdx + ".GetLowestAfter", laCache, vfIdx + ".table.LowestAfterSeq"},
-		}
-		owners := map[string]bool{}
-		for _, s := range sets {
-			f := c.Fn(s.fn)
-			owners[f.Name] = true
-			adds := f.CallsMatching(func(cs *core.CallSite) bool {
-				return cs.Name == "utils/simplewlru.Cache.Add" && fieldNameOf(f, cs.Recv()) == s.cache
-			})
-			wr := f.CallsMatching(func(cs *core.CallSite) bool {
-				return cs.Name == vfIdx+".setBytes" && len(cs.Call.Args) == 3 && fieldNameOf(f, cs.Call.Args[0]) == s.table
-			})
-			ok := len(adds) == 1 && len(wr) == 1
-			if ok {
-				// same id, same vector
-				idOK := varOf(f, adds[0].Call.Args[0]) == f.Param(0) && varOf(f, wr[0].Call.Args[1]) == f.Param(0)
-				vecOK := varOf(f, adds[0].Call.Args[1]) == f.Param(1)
-				if st, k := ast.Unparen(wr[0].Call.Args[2]).(*ast.StarExpr); k {
-					vecOK = vecOK && varOf(f, st.X) == f.Param(1)
-				} else {
-					vecOK = vecOK && varOf(f, wr[0].Call.Args[2]) == f.Param(1)
-				}
-				p1, _ := pairedWith(f, adds[0].Pt, core.Points(wr))
-				ok = idOK && vecOK && p1
-			}
-			c.Check(ok, short(s.fn)+" writes cache and table together", "T7 Pairing", f.Pos(), "the same (id, vector) goes to the table and to the cache", "cache and table can receive different values or keys")
-		}
-		for _, g := range gets {
-			f := c.Fn(g.fn)
-			owners[f.Name] = true
-			adds := f.CallsMatching(func(cs *core.CallSite) bool {
-				return cs.Name == "utils/simplewlru.Cache.Add" && fieldNameOf(f, cs.Recv()) == g.cache
-			})
-			rd := f.CallsMatching(func(cs *core.CallSite) bool {
-				return cs.Name == vfIdx+".getBytes" && len(cs.Call.Args) == 2 && fieldNameOf(f, cs.Call.Args[0]) == g.table
-			})
-			ok := len(adds) == 1 && len(rd) == 1
-			if ok {
-				ok = varOf(f, adds[0].Call.Args[0]) == f.Param(0) && varOf(f, rd[0].Call.Args[1]) == f.Param(0)
-				d, _ := f.MustPassBefore(core.Points(rd), adds[0].Pt)
-				ok = ok && d
-			}
-			c.Check(ok, short(g.fn)+" fills the cache only from the table", "T7 Pairing", f.Pos(), "a miss reads the table under the same id and caches what was read", "the cache can be filled with something that is not the stored vector")
-		}
-		// nobody else adds to the vector caches
-		n := 0
-		for _, g := range p.FuncsInPkg("vecfc") {
-			all := append([]*core.FuncInfo{g}, allLits(g)...)
-			for _, h := range all {
-				for _, cs := range h.CallsTo("utils/simplewlru.Cache.Add") {
-					cf := fieldNameOf(h, cs.Recv())
-					if cf == hbCache || cf == laCache {
-						n++
-						c.Check(owners[h.Name], "vector cache written in "+short(h.Name), "T6 WhoMayWrite", cs.Pos(), "owner accessor", "a vector cache is written outside the four accessors")
-					}
-				}
-			}
-		}
-		c.ExpectAtLeast("vector cache writers", n, 4)
-	})
+	c.Clause("C05.who", func() { c05Who(c) })
 }
